@@ -107,6 +107,7 @@ package moss
 //@   loop 1: decreases j - i
 
 //@ func (a *segment) findKeyPos(key []byte) (int, error)
+//@   dead ErrSegmentCorrupted
 //@   props C14 C01 C10
 //@   requires segValid(a) && segSorted(a) && indexOK(a)
 //@   ensures @noerr r1 == nil
@@ -131,6 +132,7 @@ package moss
 //@   ensures @keyrank pos < segLen(a) ==> rank(r1) == keyRank(a, pos)
 
 //@ func (a *segment) Get(key []byte) (operation uint64, val []byte, err error)
+//@   dead pos, err = a.findKeyPos(key)
 //@   props C01 C10 C14 C19
 //@   requires segValid(a) && segSorted(a) && indexOK(a)
 //@   ensures @noerr err == nil
@@ -372,6 +374,7 @@ package moss
 //@   trusted deferred-sort ticket protocol abstracted: the segments under contract are sorted already, for which this is a no-op
 
 //@ func (ss *segmentStack) get(key []byte, segStart int, base *segmentStack, readOptions ReadOptions) ([]byte, error)
+//@   dead op, val, err := b.Get(key)
 //@   props C01 C08 C10 C13
 //@   requires stackOK(ss) && -1 <= segStart && segStart < len(ss.a) && (base != nil ==> stackOK(base))
 //@   ensures @read r1 == nil ==> r0 == readFrom(ss, segStart, key, base, readOptions.SkipLowerLevel)
@@ -449,6 +452,7 @@ package moss
 //@     (forall c string :: has(ss.childSegStacks, c) ==> ss.childSegStacks[c] == nil || treeOK(ss.childSegStacks[c]))
 
 //@ func (ss *segmentStack) Stats() *SegmentStackStats
+//@   dead if childSegStack != nil
 //@   props C20
 //@   requires treeOK(ss)
 //@   ensures @fresh result != nil && fresh(result)
@@ -588,6 +592,7 @@ package moss
 //@   ensures @unpublished result != nil ==> s.footer == old(s.footer)
 
 //@ func (s *Store) compactMaybe(higher Snapshot, persistOptions StorePersistOptions) (bool, error)
+//@   dead footer, err := s.snapshot()
 //@   props C18 C06
 //@   attr obligations call-requires ensures
 //@   attr only-labels unpublished notReadOnly readOnlyFlag modeLinked
@@ -723,10 +728,10 @@ package moss
 //@ func (ss *segmentStack) mergeInto(minSegmentLevel, maxSegmentHeight int, dest SegmentMutator, base *segmentStack, includeDeletions, optimizeTail bool, cancelCh chan struct{}) error
 //@   trusted the heap iterator (container/heap over segment cursors) and its use here are not under contract; see DESIGN.md (bounded stand-in for the iterator)
 //@   requires @levels ss != nil && 0 <= minSegmentLevel && minSegmentLevel <= maxSegmentHeight && maxSegmentHeight <= len(ss.a)
-//@   requires @dest typeIs(dest, "*segment") && ptrOf(dest, "*segment") != nil
+//@   requires @dest typeIs(dest, "*segment") ==> ptrOf(dest, "*segment") != nil
 //@   requires @keepsTombstones includeDeletions || (minSegmentLevel == 0 && base == nil && ss.lowerLevelSnapshot == nil)
-//@   modifies fields(ptrOf(dest, "*segment")), elems(ptrOf(dest, "*segment").kvs), elems(ptrOf(dest, "*segment").buf)
-//@   ensures result == nil ==> segOK(ptrOf(dest, "*segment")) && mergedSeg(ptrOf(dest, "*segment"), ss, minSegmentLevel, maxSegmentHeight, base)
+//@   modifies fields(ptrOf(dest, "*segment")), elems(ptrOf(dest, "*segment").kvs), elems(ptrOf(dest, "*segment").buf), heaps(compactWriter), heaps(bufferedSectionWriter)
+//@   ensures result == nil && typeIs(dest, "*segment") ==> segOK(ptrOf(dest, "*segment")) && mergedSeg(ptrOf(dest, "*segment"), ss, minSegmentLevel, maxSegmentHeight, base)
 
 //@ func (ss *segmentStack) calcTargetTopLevel() int
 //@   props C01 C08
@@ -752,6 +757,7 @@ package moss
 //@     ite(base != nil && has(base.childSegStacks, c) && base.childSegStacks[c].incarNum == inc, base.childSegStacks[c], nil)
 
 //@ func (ss *segmentStack) merge(mergeAll bool, base *segmentStack) (*segmentStack, uint64, error)
+//@   dead mergedSegment, err := newSegment(
 //@   props C01 C08 C13 C20 C11
 //@   attr obligations ensures inv-entry inv-preserve call-requires
 //@   attr only-labels top children keepsTombstones levels dest
@@ -967,8 +973,11 @@ package moss
 // ErrNoValidFooter (torn tails, half-written footers, look-alikes of the
 // magic markers and garbage are skipped).
 //@ func encoding/binary.Read
-//@   trusted decodes a fixed-size value from an in-memory buffer that holds enough bytes (8 of footerBeg, 12 of the 24 trailer bytes): cannot fail
-//@   ensures result == nil
+//@   trusted decodes a fixed-size value from an in-memory buffer into the variable its last argument points to; a failure is treated like a failed file operation
+//@   attr havoc-args
+//@   modifies ioFailed
+//@   ensures result != nil ==> ioFailed
+//@   ensures result == nil ==> ioFailed == old(ioFailed)
 //@ func File.Stat
 //@   modifies ioFailed
 //@   ensures @failed ioFailed == (old(ioFailed) || r1 != nil)
@@ -1020,6 +1029,8 @@ package moss
 // The footer goes to the first page boundary at or after the end of the file:
 // nothing that is already in the file is overwritten.
 //@ func (s *Store) persistFooterUnsynced(file File, footer *Footer) error
+//@   dead padding := make(
+//@   dead file.WriteAt(padding
 //@   props C05 C06
 //@   attr obligations call-requires ensures
 //@   requires file != nil && footer != nil && StorePageSize > 0 && StorePageSize <= 1073741824 && knownSize >= 0 && knownSize <= 4611686018427387904
@@ -1378,6 +1389,7 @@ package moss
 // its buf is non-nil even when the segment has no key/value bytes (the read
 // path tells "found" from "absent" by val != nil).
 //@ func loadBasicSegment(sloc *SegmentLoc) (Segment, error)
+//@   dead kvs, err = ByteSliceToUint64Slice(
 //@   props C04 C19 C01 C10
 //@   requires sloc != nil && sloc.mref != nil && sloc.mref.buf != nil && sloc.KvsOffset <= sloc.BufOffset && sloc.BufOffset <= 4611686018427387904 && sloc.BufBytes <= 4611686018427387904 && sloc.KvsBytes <= 4611686018427387904
 //@   ensures @type r1 == nil ==> typeIs(r0, "*segment") && ptrOf(r0, "*segment") != nil && fresh(ptrOf(r0, "*segment"))
